@@ -10,7 +10,7 @@
 (***************************************************************************)
 EXTENDS Conflict, Json, IOUtils, TLC
 
-CONSTANT OracleBound      \* largest selection space the brute-force oracle is asked about
+CONSTANT OracleBound      \* largest universe (solvables) for which a hooked run is also judged by the DPLL oracle
 
 Rec == ndJsonDeserialize(IOEnv.TRACE)
 
@@ -49,7 +49,7 @@ HintedOf(U, n) == IF ~U.pkg[n].exists THEN {}
 GRP0 == [id |-> 0, kind |-> "", sol |-> <<>>, msg |-> "", calls |-> <<>>, profile |-> ""]
 BB0 == [callseq |-> <<>>, dcalls |-> {}, ccalls |-> {}, dret |-> {}, cret |-> {}, kreqs |-> {}, knames |-> {},
         cancelSeen |-> FALSE, cancelVal |-> 0, prevSolves |-> 0, callsThisSolve |-> 0]
-WB0 == [cls |-> <<>>, nlearnt |-> 0, trail |-> <<>>, lv |-> <<>>, A |-> {}, vsolv |-> <<>>, vhelp |-> <<>>, on |-> FALSE]
+WB0 == [cls |-> <<>>, nlearnt |-> 0, trail |-> <<>>, lv |-> <<>>, base |-> 0, A |-> {}, vsolv |-> <<>>, vhelp |-> <<>>, on |-> FALSE]
 
 Init == /\ l = 1
         /\ ctx = [id |-> -1, k |-> 0, begin |-> 0]
@@ -135,7 +135,7 @@ Quiescent ==
   /\ (IF Len(Rec[l].pending) >= 2 THEN Cover(<<"quiescent2">>) ELSE TRUE)
 
 Skip == /\ l <= Len(Rec)
-        /\ Rec[l].ev \in {"blockon", "blockdone", "complete", "skipped", "verdict", "runsat", "restart", "end"}
+        /\ Rec[l].ev \in {"blockon", "blockdone", "complete", "skipped", "verdict", "restart", "end"}
         /\ l' = l + 1 /\ UNCHANGED <<ctx, bb, wb, grp>>
 
 (***************************************************************************)
@@ -188,6 +188,12 @@ TrueFact(r) ==
          /\ (c \in Range(u.pkg[NameOf(u, c)].excluded) \/ ~u.solv[c].known)
          /\ ls = {<<r.a, 0>>}
     [] OTHER -> FALSE
+
+\* run_sat begins: for a soft requirement (start > 0) everything on the trail belongs to
+\* earlier runs
+RunSat ==
+  /\ E("runsat") /\ UNCHANGED <<ctx, bb, grp>>
+  /\ wb' = [wb EXCEPT !.base = IF Rec[l].start > 0 THEN Len(wb.trail) ELSE 0]
 
 Var ==
   /\ E("var") /\ UNCHANGED <<ctx, bb, grp>>
@@ -281,6 +287,10 @@ Assign ==
 Undo ==
   /\ E("undo") /\ UNCHANGED <<ctx, bb, grp>>
   /\ Chk("C05", Rec[l].len <= Len(wb.trail), "C05_UndoNotPrefix", Rec[l].len)
+  \* LazyCdcl: a run for a soft requirement (starting level > 0) keeps what the runs
+  \* before it established - Install cuts back to the run's starting level, PropLearn
+  \* clamps its backjump to the run's first level, FailTarget returns to the starting level
+  /\ Chk("C14", Rec[l].len >= wb.base, "C14_UndoBelowRunStart", <<Rec[l].len, wb.base>>)
   /\ LET n == IF Rec[l].len <= Len(wb.trail) THEN Rec[l].len ELSE Len(wb.trail)
          t == SubSeq(wb.trail, 1, n)
      IN wb' = [wb EXCEPT !.trail = t, !.lv = SubSeq(wb.lv, 1, n), !.A = Range(t)]
@@ -363,7 +373,9 @@ ResultSat(r) ==
   /\ Chk("C01", NoDup(r.sol), "C01_DupInSolution", r.sol)
   /\ Chk("C01", why = "", "C01_" \o why, r.sol)
   \* "and vice versa": a solution is only reported for a problem that has one
-  /\ Chk("C02", ~RuleOn("C02") \/ Satisfiable(u, p), "C02_SolutionButUnsatisfiable", r.sol)
+  \* (a valid solution of a problem without soft requirements is itself the witness;
+  \* the oracle is only asked when there is none)
+  /\ Chk("C02", ~RuleOn("C02") \/ (why = "" /\ p.soft = <<>>) \/ Satisfiable(u, p), "C02_SolutionButUnsatisfiable", r.sol)
   /\ Chk("C05", Supported(u, p, S), "C05_Unsupported", S \ SupportedSet(u, p, S))
   /\ Chk("C07", ~(cf /\ p.soft = <<>>) \/ S = clos, "C07_NotPreferred", <<r.sol, clos>>)
   /\ Chk("C08", ~dbf \/ DirectBest(u, p) \subseteq S, "C08_DirectDowngraded", <<r.sol, DirectBest(u, p)>>)
@@ -391,9 +403,11 @@ ResultSat(r) ==
 
 ResultUnsat(r) ==
   LET G == r.graph
-      \* the DPLL oracle needs no size bound; OracleBound only caps the naive
-      \* cross-check used in MC_Universe
-      small == RuleOn("C02")
+      \* the DPLL oracle is asked for every universe of up to OracleBound solvables; beyond
+      \* that only when the run was recorded without hooks - with hooks the verdict is
+      \* certified by the proof check of the hook stream (true facts, RUP learnt clauses,
+      \* RUP refutation), which does not depend on the size of the search
+      small == RuleOn("C02") /\ (Len(u.solv) <= OracleBound \/ ~wb.on)
   IN
   /\ Chk("C12", ~bb.cancelSeen, "C12_ResultAfterCancel", r.kind)
   /\ Chk("C02", ~small \/ ~Satisfiable(u, p), "C02_UnsatButSatisfiable", 0)
@@ -471,7 +485,12 @@ Result ==
   /\ E("result") /\ UNCHANGED <<ctx, bb, wb>>
   /\ GroupRule(Rec[l])
   /\ LET r == Rec[l] IN
-     CASE r.kind = "sat" -> ResultSat(r)
+     CASE r.kind = "sat" ->
+            \* a "solution" naming something that is not a solvable of the universe (for
+            \* instance leftovers of an earlier answer in a reused result vector) cannot be
+            \* judged by the rules below
+            IF Range(r.sol) \subseteq DOMAIN u.solv THEN ResultSat(r)
+            ELSE Fail("C01_NotASolvable", r.sol) /\ Cover(<<"sat">>)
        [] r.kind = "unsat" -> ResultUnsat(r)
        [] r.kind = "unsat_nograph" ->
             /\ Chk("C02", ~Satisfiable(u, p), "C02_UnsatButSatisfiable", 0)
@@ -485,7 +504,7 @@ Result ==
        [] OTHER -> Fail("T_UnknownResult", r.kind)
 
 Next == \/ Begin \/ Poll \/ Call \/ Ret \/ CacheQuery \/ Quiescent \/ Skip
-        \/ Var \/ ClauseEv \/ Assign \/ Undo \/ Learnt \/ UnsatIds \/ Result
+        \/ RunSat \/ Var \/ ClauseEv \/ Assign \/ Undo \/ Learnt \/ UnsatIds \/ Result
 
 Spec == Init /\ [][Next]_vars
 
